@@ -83,11 +83,39 @@ class World:
             raise HarnessError("nested worlds")
         _W = self
         _reset_process_state()
+        # the library's module-level generator (default argument of every generate) is process-wide state: give it a
+        # state derived from the run so that code which (wrongly) falls back on it still replays, and so that its use
+        # can be detected
+        self._grng = None
+        try:
+            import numpy as np
+
+            g = boot.load()
+            grng = getattr(g.core, "_GLOBAL_RNG", None)
+            if grng is not None:
+                self._grng = grng
+                self._grng_saved = grng.bit_generator.state
+                grng.bit_generator.state = np.random.PCG64(int(self.sched.seed) % (1 << 63)).state
+                self._grng_start = repr(grng.bit_generator.state)
+        except Exception:
+            self._grng = None
         return self
+
+    def global_rng_used(self):
+        return self._grng is not None and repr(self._grng.bit_generator.state) != self._grng_start
+
+    def global_rng_mark(self):
+        if self._grng is not None:
+            self._grng_start = repr(self._grng.bit_generator.state)
 
     def __exit__(self, *exc):
         global _W
         _W = None
+        if self._grng is not None:
+            try:
+                self._grng.bit_generator.state = self._grng_saved
+            except Exception:
+                pass
         return False
 
 
